@@ -363,7 +363,67 @@ def run(ck, ix, tier):
                  "the '[]' marker is removed before the result is stored",
                  "the '[]' (dimensionless) marker can survive into the stored dimensionality")
 
+    # ---------------------------------------------------------------- (d) exponent bookkeeping of the recursive expansion
+    recursion_exponent_rule(ck, ix, "GenericPlainRegistry._get_dimensionality_recurse")
+
+    # ---------------------------------------------------------------- (e) ureg.check pairs dimensions with parameters in signature order
+    check_wrapper_order_rule(ck, ix)
     return EXPLANATION
+
+
+def recursion_exponent_rule(ck, ix, qual):
+    """In `for key in ref: exp2 = exp * ref[key]` every recursive call and every accumulator
+    update inside the loop must use the combined exponent exp2, never the outer `exp`."""
+    fi = ix.func(PR, qual)
+    ck.analysed(fi)
+    defs = defs_of(fi)
+    pnames = [a.arg for a in fi.node.args.args]
+    ref_p, exp_p = pnames[1], pnames[2]
+    loops = [l for l in ast.walk(fi.node) if isinstance(l, ast.For) and norm(l.iter) == ref_p]
+    if not loops:
+        raise AnalysisError(f"{qual}: loop over the reference container not found")
+    n = 0
+    for l in loops:
+        key = norm(l.target)
+        comb = [a for a in ast.walk(l) if isinstance(a, ast.Assign) and isinstance(a.value, ast.BinOp) and isinstance(a.value.op, ast.Mult)
+                and {norm(a.value.left), norm(a.value.right)} == {exp_p, f"{ref_p}[{key}]"}]
+        ck.check(len(comb) == 1, "G-PROV", f"{qual}|combined-exponent-is-product", fi.loc(l), "combined exponent = outer exponent * exponent in the reference",
+                 f"no assignment `x = {exp_p} * {ref_p}[{key}]` found: the exponent of the outer unit and of the referenced unit are not multiplied")
+        if len(comb) != 1:
+            continue
+        cname = norm(comb[0].targets[0])
+        for c in ast.walk(l):
+            if isinstance(c, ast.Call) and call_name(c) == fi.name:
+                n += 1
+                ck.check(len(c.args) >= 2 and norm(c.args[1]) == cname, "G-PROV", f"{qual}|recursion-carries-combined-exponent", fi.loc(c),
+                         f"recursive expansion carries {cname}", f"`{norm(c)}` recurses with `{norm(c.args[1]) if len(c.args) > 1 else '?'}` instead of the combined exponent `{cname}`: exponents of derived dimensions/units are lost")
+            if isinstance(c, ast.AugAssign) and isinstance(c.target, ast.Subscript):
+                n += 1
+                v = c.value
+                if isinstance(c.op, ast.Add):
+                    ck.check(norm(v) == cname, "G-PROV", f"{qual}|accumulates-combined-exponent", fi.loc(c), f"accumulates {cname}", f"`{norm(c)}` does not accumulate the combined exponent `{cname}`")
+                elif isinstance(c.op, ast.Mult):
+                    ok = isinstance(v, ast.BinOp) and isinstance(v.op, ast.Pow) and norm(v.right) == cname and norm(v.left).endswith("converter.scale")
+                    ck.check(ok, "G-PROV", f"{qual}|scale-raised-to-combined-exponent", fi.loc(c), f"scale ** {cname} multiplied in", f"`{norm(c)}` does not multiply by converter.scale ** {cname}")
+    ck.floor("G-PROV", n, 2, f"recursive calls / accumulator updates in {qual}")
+
+
+def check_wrapper_order_rule(ck, ix):
+    fi = ix.func("pint.registry_helpers", "check")
+    for w in [f for f in fi.module.all_functions if f.name == "wrapper" and f.qualname.startswith(fi.qualname)]:
+        loops = [l for l in ast.walk(w.node) if isinstance(l, ast.For) and "sig.parameters" in norm(l.iter)]
+        ok = False
+        for l in loops:
+            apps = [c for c in ast.walk(l) if isinstance(c, ast.Call) and call_name(c) == "append" and c.args and "kw[" in norm(c.args[0])]
+            names = [norm(e) for e in (l.target.elts if isinstance(l.target, ast.Tuple) else [l.target])]
+            if apps and any(norm(apps[0].args[0]) == f"kw[{nm}]" for nm in names):
+                ok = True
+        ck.check(ok, "G-PROV", "registry_helpers.check|keyword-arguments-in-signature-order", w.loc(),
+                 "keyword/default values are appended in signature order (zip with the declared dimensions is positional)",
+                 "keyword and default arguments are no longer collected by walking sig.parameters in order: dimensions are checked against the wrong arguments")
+        zips = [c for c in ast.walk(w.node) if isinstance(c, ast.Call) and call_name(c) == "zip"]
+        ck.check(any([norm(a) for a in z.args] == ["dimensions", "list_args"] for z in zips), "G-PROV", "registry_helpers.check|dimensions-zipped-with-arguments", w.loc(),
+                 "declared dimensions zipped with the packed arguments", "declared dimensions are not zipped with the packed argument list")
 
 
 def _const_return_is_to_verdict(fi, ret: ast.Return, value: bool) -> bool:
